@@ -300,10 +300,28 @@ func canonicalCmd(c string) string {
 	return c
 }
 
+// sortedLines: the output as a sorted multiset of per-root blocks (with --massive the roots may come in any order, but
+// every root's block stays contiguous and intact). A block starts at a line that carries no branch prefix.
 func sortedLines(s string) string {
-	l := strings.Split(s, "\n")
-	sort.Strings(l)
-	return strings.Join(l, "\n")
+	var blocks []string
+	for _, l := range strings.SplitAfter(s, "\n") {
+		if l == "" {
+			continue
+		}
+		inner := false
+		for _, p := range []string{"├── ", "└── ", "│   ", "    "} {
+			if strings.HasPrefix(l, p) {
+				inner = true
+			}
+		}
+		if inner && len(blocks) > 0 {
+			blocks[len(blocks)-1] += l
+		} else {
+			blocks = append(blocks, l)
+		}
+	}
+	sort.Strings(blocks)
+	return strings.Join(blocks, "\x00")
 }
 
 func c16Judge(c *rep.Ctx, cs c16Case) {
